@@ -10,6 +10,7 @@ pub mod c12;
 pub mod c13;
 pub mod c14;
 pub mod c17;
+pub mod c20;
 pub mod common;
 
 use crate::engine::Tier;
@@ -32,6 +33,7 @@ pub fn run(prop: &str, tier: Tier, seed: u64) -> i32 {
         "C12" => c12::run(tier, seed, &findings),
         "C13" => c13::run(tier, seed, &findings),
         "C14" => c14::run(tier, seed, &findings),
+        "C20" => c20::run(tier, seed, &findings),
         "C17" => c17::run("C17", tier, seed, &findings),
         "C18" => c17::run("C18", tier, seed, &findings),
         "C19" => c17::run("C19", tier, seed, &findings),
@@ -68,6 +70,7 @@ pub fn replay(path: &str) -> i32 {
         "C12" => c12::replay(&v, path, &findings),
         "C13" => c13::replay(&v, path, &findings),
         "C14" => c14::replay(&v, path, &findings),
+        "C20" => c20::replay(&v, path, &findings),
         "C17" => c17::replay("C17", &v, path, &findings),
         "C18" => c17::replay("C18", &v, path, &findings),
         "C19" => c17::replay("C19", &v, path, &findings),
@@ -154,27 +157,11 @@ pub fn replay_generic<C: PropCheck>(check: &C, prop: &'static str, v: &serde_jso
     code
 }
 
-/// `gev emit`: compile a group given as JSON in the given insertion order and print every emitted artefact
+/// `gev emit`: compile what the JSON request describes in a fresh process and print every emitted artefact as JSON.
+/// Request: {"files":[[path,src]...],"scripts":[[path,js]...],"dev":bool,"extra":str?,"import_split":n?,
+///           "css":{"text":..., "options":{...}}?}
 pub fn c20_emit(v: &serde_json::Value) -> i32 {
-    let pairs = |k: &str| -> Vec<(String, String)> {
-        v[k].as_array().map(|a| a.iter().filter_map(|x| Some((x[0].as_str()?.to_string(), x[1].as_str()?.to_string()))).collect()).unwrap_or_default()
-    };
-    let files = pairs("files");
-    let scripts = pairs("scripts");
-    let dev = v["dev"].as_bool().unwrap_or(false);
-    match crate::compile::compile_sources(&files, &scripts, dev) {
-        Ok((group, _)) => {
-            match group.get_tmpl_gen_object_groups() {
-                Ok(s) => println!("{}", s),
-                Err(e) => {
-                    println!("TmplError: {}", e.message);
-                }
-            }
-            0
-        }
-        Err(p) => {
-            println!("panic: {}", p);
-            0
-        }
-    }
+    let out = c20::emit_artefacts(v);
+    println!("{}", out);
+    0
 }
